@@ -45,15 +45,17 @@ def cases(ctx: Ctx, res: Result):
         if not ctx.thorough and k == 3:
             # 3-block quick family: all streams for a third of the patterns, sampled for the rest
             ss = streams if i % 3 == 0 else ctx.rng.sample(streams, 12)
-        for s in ss:
+        for j, s in enumerate(ss):
             res.count(f'exhaustive_k{k}')
-            yield Case([('ph', [pat])], 0, ev_ops(s), 'exh')
+            # the timestamps the events carry: arrival order, sources with skewed clocks (not monotone, ties), all equal
+            yield Case([('ph', [pat])], 0, ev_ops(s, clock=('arrival', 'skewed', 'arrival', 'same')[(i + j) % 4]), 'exh')
     # seeded random: longer patterns, several patterns/phenomena, history-dependent predicates
     for _ in range(1500 if ctx.thorough else 250):
         phens = gp.random_phens(ctx.rng)
         res.count('random')
         res.count('shape:' + gp.shape_key(phens)[:40])
-        yield Case(phens, ctx.rng.choice((0, 0, 3)), ev_ops(gp.random_stream(ctx.rng, ctx.rng.randint(5, 30))), 'rnd')
+        yield Case(phens, ctx.rng.choice((0, 0, 3)), ev_ops(gp.random_stream(ctx.rng, ctx.rng.randint(5, 30)),
+                                                            clock=ctx.rng.choice(('arrival', 'skewed', 'skewed', 'same'))), 'rnd')
 
 
 def run(ctx: Ctx) -> Result:
